@@ -159,16 +159,19 @@ Section Closed.
   Qed.
 End Closed.
 
-(* the sticky write error refuses every later Put and Finalize of a storage front-end *)
+(* the sticky write error refuses every later Put and Finalize of a storage front-end: error, file
+   and index untouched, the error stays (Finalize also marks the store closed) *)
 Theorem sticky_error_refuses hdrdec kn s op s' out :
   kn <> 0 -> ws_finalized s = true -> (exists c d, op = FPut c d) \/ op = FFinalize ->
-  fstep hdrdec kn s op = (s', out) -> s' = s /\ is_err out = true.
+  fstep hdrdec kn s op = (s', out) ->
+  is_err out = true /\ ws_file s' = ws_file s /\ ws_idx s' = ws_idx s /\ ws_finalized s' = true.
 Proof.
   intros Hkn Hf Hop. unfold fstep. replace (kn =? 0) with false by lia.
   destruct Hop as [(c & d & ->) | ->].
-  - unfold st_put. destruct (cid_parse c); [|intros H; inversion H; split; reflexivity].
-    destruct (ws_closed s); [intros H; inversion H; split; reflexivity|]. rewrite Hf. intros H; inversion H; split; reflexivity.
-  - unfold st_finalize. rewrite Hf. intros H; inversion H; split; reflexivity.
+  - unfold st_put. destruct (cid_parse c); [|intros H; inversion H; subst; repeat split; try reflexivity; exact Hf].
+    destruct (ws_closed s); [intros H; inversion H; subst; repeat split; try reflexivity; exact Hf|].
+    rewrite Hf. intros H; inversion H; subst; repeat split; try reflexivity; exact Hf.
+  - unfold st_finalize. rewrite Hf. intros H; inversion H; subst. repeat split; reflexivity.
 Qed.
 
 (* ---- (3) instances: hypotheses are satisfiable, the unrepaired Put is refuted ---------------------------------- *)
